@@ -16,6 +16,8 @@ import (
 	"github.com/thushan/olla/internal/core/domain"
 	"github.com/thushan/olla/internal/core/ports"
 	"github.com/thushan/olla/internal/logger"
+
+	"github.com/thushan/olla/internal/verifhook"
 )
 
 // RetryHandler manages connection failure recovery and endpoint failover
@@ -180,6 +182,7 @@ func (h *RetryHandler) executeProxyAttempt(ctx context.Context, w http.ResponseW
 	selector.IncrementConnections(endpoint)
 	defer selector.DecrementConnections(endpoint)
 
+	verifhook.Point("proxy.attempt", endpoint.Name)
 	return proxyFunc(ctx, w, r, endpoint, stats)
 }
 
